@@ -11,6 +11,7 @@ import json
 import os
 import random
 import re
+import signal
 import subprocess
 import sys
 import time
@@ -28,21 +29,32 @@ STD_TRUSTED = [
 ]
 
 
-def sh(cmd, timeout=600, cwd=ROOT, env=None, inp=None):
-    """Run a shell command; returns (rc, combined output). rc=124 on timeout."""
+def sh(cmd, timeout=600, cwd=ROOT, env=None, inp=None, sep_stderr=False):
+    """Run a shell command in its own process group; returns (rc, combined output), or
+    (rc, stdout, stderr) with sep_stderr. rc=124 on timeout: the WHOLE group is killed then (the shell is
+    dash and does not exec its last command, so killing only the shell would leave the driver / make /
+    coqc running as an orphan that still holds the build lock)."""
     e = dict(os.environ)
     if env:
         e.update(env)
+    p = subprocess.Popen(cmd, shell=isinstance(cmd, str), cwd=cwd, env=e,
+                         stdin=subprocess.PIPE if inp is not None else None,
+                         stdout=subprocess.PIPE, stderr=subprocess.PIPE if sep_stderr else subprocess.STDOUT,
+                         text=True, errors="replace", start_new_session=True)
     try:
-        p = subprocess.run(cmd, shell=isinstance(cmd, str), cwd=cwd, env=e, input=inp,
-                           stdout=subprocess.PIPE, stderr=subprocess.STDOUT,
-                           timeout=timeout, text=True, errors="replace")
-        return p.returncode, p.stdout
-    except subprocess.TimeoutExpired as ex:
-        out = ex.stdout or ""
-        if isinstance(out, bytes):
-            out = out.decode("utf-8", "replace")
-        return 124, out + "\n[timeout after %ss]" % timeout
+        out, err = p.communicate(inp, timeout=timeout)
+        rc = p.returncode
+    except subprocess.TimeoutExpired:
+        try:
+            os.killpg(p.pid, signal.SIGKILL)
+        except OSError:
+            pass
+        out, err = p.communicate()
+        rc = 124
+        out = (out or "") + "\n[timeout after %ss]" % timeout
+    if sep_stderr:
+        return rc, out or "", err or ""
+    return rc, out or ""
 
 
 class Lock:
@@ -261,10 +273,18 @@ class BuildError(Exception):
     pass
 
 
+LAST_STDERR = [""]
+
+
 def run_lines(binary, lines, timeout=600, env=None, args=""):
-    """Feed `lines` to a driver on stdin, return its output lines (and rc)."""
-    rc, out = sh(binary + (" " + args if args else ""), inp="\n".join(lines) + "\n", timeout=timeout, env=env)
-    return rc, out.splitlines()
+    """Feed `lines` to a driver on stdin, return (rc, its STDOUT lines). stderr is kept apart in
+    pv.LAST_STDERR[0] (sanitizer notices and the like must not shift the line-by-line comparison)."""
+    rc, out, err = sh(binary + (" " + args if args else ""), inp="\n".join(lines) + "\n", timeout=timeout, env=env, sep_stderr=True)
+    LAST_STDERR[0] = err
+    ol = out.splitlines()
+    if rc == 124 and ol and ol[-1].startswith("[timeout after"):
+        ol = ol[:-1]
+    return rc, ol
 
 
 def diff_outputs(cases, a, b):
@@ -414,6 +434,7 @@ def correspondence(ctx, name, cases, impl_bin, model_bin, nontrivial=None, funct
     disagreement is itself a concrete failing input. Otherwise `oracle(case, impl_out,
     model_out)` decides (True = property fails on the implementation at this input)."""
     rc1, o1 = run_lines(impl_bin, cases, timeout=timeout, env=impl_env)
+    err1 = LAST_STDERR[0]
     rc2, o2 = run_lines(model_bin, cases, timeout=timeout)
     cov = ctx.cov
     cov["evaluations"] = cov.get("evaluations", 0) + len(cases)
@@ -425,16 +446,39 @@ def correspondence(ctx, name, cases, impl_bin, model_bin, nontrivial=None, funct
         if nontrivial(c, out):
             seen.add(c)
     cov["distinct_nontrivial"] = len(seen)
-    cov.setdefault("correspondences", {})[name] = {"cases": len(cases), "impl_rc": rc1, "model_rc": rc2}
-    if rc2 != 0:
-        ctx.violation("model-" + name, {"kind": "model-driver-crash", "rc": rc2, "tail": o2[-5:]}, False,
-                      "model driver failed (rc=%d)" % rc2)
+    cov.setdefault("correspondences", {})[name] = {"cases": len(cases), "impl_rc": rc1, "model_rc": rc2, "impl_lines": len(o1)}
+    if rc2 != 0 or len(o2) < len(cases):
+        ctx.violation("model-" + name, {"kind": "model-driver-crash", "rc": rc2, "lines": len(o2), "cases": len(cases), "tail": o2[-5:],
+                                        "stderr": LAST_STDERR[0][-1500:]}, False,
+                      "model driver failed or stopped early (rc=%d, %d of %d lines)" % (rc2, len(o2), len(cases)))
         return []
-    bad = diff_outputs(cases, o1, o2)
-    if rc1 != 0 and not bad:
-        bad = [(len(o1), cases[len(o1)] if len(o1) < len(cases) else "<end>", "<crash rc=%d>" % rc1, "")]
+    n1 = min(len(o1), len(cases))
+    # compare what the implementation driver produced; what it did NOT produce is handled below, once
+    bad = diff_outputs(cases[:n1], o1[:n1], o2[:n1])
+    if n1 < len(cases):
+        nxt = cases[n1]
+        stail = "\n".join(err1.splitlines()[-25:])
+        if rc1 == 124:
+            ctx.violation("timeout-" + name, {"kind": "driver-timeout", "engine": name, "timeout_s": timeout, "processed": n1, "cases": len(cases),
+                                              "next_case": nxt, "impl_driver": impl_bin, "witness": "%s :: timeout" % name}, False,
+                          "implementation driver did not finish within %ss (%d of %d cases processed; next case `%s`): nothing is shown for the rest"
+                          % (timeout, n1, len(cases), nxt[:300]))
+        else:
+            obj = {"kind": "crash", "engine": name, "case": nxt, "rc": rc1, "stderr": stail, "impl": "<crash rc=%d>" % rc1, "model": o2[n1],
+                   "witness": "%s :: %s" % (name, nxt), "impl_driver": impl_bin, "model_driver": model_bin}
+            first = stail.strip().splitlines()[0][:300] if stail.strip() else ""
+            ctx.violation("corr-" + name, obj, rc1 != 0,
+                          "case `%s`: implementation driver %s (rc=%d) %s vs model/specification `%s`"
+                          % (nxt[:2000], "crashed" if rc1 != 0 else "stopped without output", rc1, first, o2[n1][:300]))
+    elif rc1 != 0:
+        stail = "\n".join(err1.splitlines()[-25:])
+        ctx.violation("corr-" + name, {"kind": "crash", "engine": name, "rc": rc1, "stderr": stail, "case": "<after the last case>",
+                                       "witness": "%s :: exit status" % name, "impl_driver": impl_bin}, True,
+                      "implementation driver answered every case but exited with rc=%d: %s" % (rc1, (stail.strip().splitlines() or [""])[0][:300]))
     reported = 0
-    for (i, c, x, y) in bad[:3]:
+    for (i, c, x, y) in bad:
+        if reported >= 3:
+            break
         is_fail = True if functional else bool(oracle and oracle(c, x, y))
         obj = {"kind": "correspondence", "engine": name, "case": c, "impl": x, "model": y,
                "witness": "%s :: %s" % (name, c), "impl_driver": impl_bin, "model_driver": model_bin}
